@@ -3,6 +3,7 @@ package main
 import (
 	"fmt"
 	"go/token"
+	"go/types"
 	"sort"
 	"strings"
 
@@ -363,6 +364,25 @@ func runC18(c *Ctx) {
 		c.Unresolved("C18.P1", "processServices")
 	}
 	c.Min("C18.P1", 10)
+
+	// ---------------- S1 results do not alias the transformer's own state
+	{
+		var entries []*ssa.Function
+		for _, pk := range []string{pDT, "versions/1_0/doctransformer/doctransformer"} {
+			if f := c.Method(pk, "Transformer", "TransformDocument"); f != nil {
+				entries = append(entries, f)
+			}
+		}
+		if len(entries) == 0 {
+			c.Unresolved("C18.S1", "TransformDocument")
+		} else {
+			c.receiverStateWrites("C18.S1", "TransformDocument", entries, func(t types.Type) bool {
+				s := types.TypeString(t, nil)
+				return strings.HasSuffix(s, "doctransformer/didtransformer.Transformer") || strings.HasSuffix(s, "doctransformer/doctransformer.Transformer") || strings.HasSuffix(s, "doctransformer/metadata.Metadata")
+			})
+		}
+	}
+	c.Min("C18.S1", 1)
 
 	// ---------------- P2 metadata mapping
 	c.metadataMapping(pMeta)
